@@ -130,7 +130,8 @@ Section DeliveryProofs.
           split; [rewrite He; reflexivity|].
           destruct r' as [b'|].
           * destruct Hr as [Ha [tr' [Hst [Hsy [Hv1 [Hv2 Hv3]]]]]].
-            split; [exact Ha|]. exists tr'. repeat split; try assumption; congruence.
+            split; [exact Ha|]. exists tr'.
+            split; [exact Hst|]. split; [exact Hsy|]. split; [congruence|]. split; congruence.
           * exact Hr.
         + cbn. split; reflexivity.
     Qed.
@@ -386,11 +387,11 @@ Section DeliveryProofs.
       destruct hdr.
       + destruct (dec_header t c) as [[len t']|]; [|cbn; discriminate].
         destruct (len <? MIN_MSG_LEN); [cbn; discriminate|].
-        cbn [p_enc p_init]. repeat split; [lia | reflexivity].
+        cbn [p_enc p_init]. split; [exact I|]. split; [lia | reflexivity].
       + destruct (dec_body t c) as [[m t']|]; [|cbn; discriminate].
         pose proof (gate_msg_order ini m) as Hg.
         destruct (gate_msg ini m) as [evs [b'|]]; cbn [p_enc p_init].
-        * repeat split; [lia | exact Hg].
+        * split; [exact I|]. split; [lia | exact Hg].
         * exact Hg.
   Qed.
 
@@ -512,5 +513,26 @@ Section DeliveryProofs.
     unfold outbound_conn, Noise.get_act_one, Noise.new_outbound.
     destruct (outbound_noise_act dh pub hkdf2 H seal (init_hs H their) ie their) as [[res tk] st].
     intros Heq. inversion Heq; subst. cbn. repeat split; lia.
+  Qed.
+
+  Theorem init_first_inbound fs :
+    let '(c', evs) := feed_all pstate event ph (inbound_conn pub H our_node_secret) fs in
+    (c_status c' = Alive \/ c_status c' = Disconnected) /\
+    forall pre post, evs = pre ++ EvDeliver :: post ->
+      In EvInit pre /\ exists id, In (EvNoiseDone id) pre.
+  Proof.
+    destruct inbound_conn_ok as [Ha [Hb [Hc Hd]]].
+    apply init_first_and_no_panic; assumption.
+  Qed.
+
+  Theorem init_first_outbound their ie act c0 fs :
+    outbound_conn dh pub hkdf2 H seal their ie = Some (act, c0) ->
+    let '(c', evs) := feed_all pstate event ph c0 fs in
+    (c_status c' = Alive \/ c_status c' = Disconnected) /\
+    forall pre post, evs = pre ++ EvDeliver :: post ->
+      In EvInit pre /\ exists id, In (EvNoiseDone id) pre.
+  Proof.
+    intros Hc0. destruct (outbound_conn_ok their ie act c0 Hc0) as [Ha [Hb [Hc Hd]]].
+    apply init_first_and_no_panic; assumption.
   Qed.
 End DeliveryProofs.
